@@ -103,6 +103,9 @@ def raw_rows(df):
 
 
 # ------------------------------------------------------------------------------------------------ running zEpid
+REFIT = [0]
+
+
 class IptwSpy:
     """records what iptw_calculator returned to the generalize classes (denominator / numerator probabilities)"""
 
@@ -161,6 +164,13 @@ def run_est(kind, df, meta, gen, stab, rx, fS=None, fA=None, fQ=None):
                 if rx:
                     e.treatment_model(fA, stabilized=stab, print_results=False)
                 e.fit()
+                REFIT[0] += 1
+                if REFIT[0] % 2 == 0:
+                    # the property holds for the estimator, not for its first fit(): refit, and refit after re-specifying
+                    e.fit()
+                    if rx and REFIT[0] % 4 == 0:
+                        e.treatment_model(fA, stabilized=stab, print_results=False)
+                        e.fit()
                 Ks = K[smp]
                 allm = np.ones(len(Ks), dtype=bool)
                 res['ps'], sp = table(e.sample['__denom__'], Ks, allm, ns)
@@ -192,6 +202,9 @@ def run_est(kind, df, meta, gen, stab, rx, fS=None, fA=None, fQ=None):
                     e.treatment_model(fA, stabilized=stab, print_results=False)
                 e.outcome_model(fQ, outcome_type=otype, print_results=False)
                 e.fit()
+                REFIT[0] += 1
+                if REFIT[0] % 2 == 0:
+                    e.fit()
                 allm = np.ones(len(K), dtype=bool)
                 res['ps'], sp = table(e.df['__denom__'], K, allm, ns)
                 res['spread'] = max(res['spread'], sp)
